@@ -150,6 +150,7 @@ void profile_mesh(const json& plan, Ctx& ctx) {
 		for (size_t i = 0; i < tris.size(); i++) out.insert({canonTri(tris[i]), tp[i] >= 0 && size_t(tp[i]) < pi2.size() ? int(pi2[tp[i]].partID) : -1 - tp[i]});
 		return true;
 	};
+	std::map<size_t, ShapeSnap> blindWant; // model state of shapes after deletions nobody has observed yet
 	PartFlags pf; // C10: per shape, were partitions rebuilt (UpdateSkinPartitions) since the last edit touching them
 	int stepNo = 0;
 	for (auto& st : plan["steps"]) {
@@ -162,7 +163,8 @@ void profile_mesh(const json& plan, Ctx& ctx) {
 		auto shapes = w.nif->GetShapes();
 		size_t sidx = shapes.empty() ? 0 : size_t(ju64(st, "shape", 0) % shapes.size());
 		NiShape* shape = shapes.empty() ? nullptr : shapes[sidx];
-		if (op != "Restart" && op != "SetPartitions") partExpect.erase(sidx); // any other operation on the shape ends the "set, save, reload" episode
+		if (op != "Restart" && op != "SetPartitions") partExpect.erase(sidx);
+		if (op != "Restart" && !(op == "DeleteVerts" && jbool(st, "blind", false))) blindWant.clear(); // observed from here on // any other operation on the shape ends the "set, save, reload" episode
 
 		if (op == "DeleteVerts") {
 			if (!shape || shape->GetNumVertices() == 0) { stepNo++; continue; }
@@ -184,7 +186,11 @@ void profile_mesh(const json& plan, Ctx& ctx) {
 			if (before.type == "BSMeshLODTriShape") ctx.probe("deleted_from_meshlod");
 			if (del.size() == before.nv) ctx.probe("deleted_all");
 			bool empty = allGone || want.nv == 0 || (!want.isStrips && want.tris.empty());
-			if (prop_is(ctx, "C09")) {
+			// unobserved deletion: nothing is queried between the deletion and the save that follows (the harness's own
+			// observations call getters that rebuild caches and would hide a stale one); the reloaded shape is compared with the model
+			bool blind = jbool(st, "blind", false) && !empty;
+			if (blind) { blindWant[sidx] = want; ctx.probe("deletion_not_observed_before_save"); }
+			if (prop_is(ctx, "C09") && !blind) {
 				if (!empty) {
 					ShapeSnap got = snapShape(*w.nif, shape);
 					cmpAttr(ctx, where, got, want, false);
@@ -208,9 +214,46 @@ void profile_mesh(const json& plan, Ctx& ctx) {
 				if (empty) segx.active = false;
 				ctx.probe("segments_after_delete");
 			}
+			if (blind) { stepNo++; continue; }
 			if (empty) { pf.coverInvalid[sidx] = true; checkAll(w, where, false, &pf); stepNo++; continue; }
 			checkAll(w, where, false, &pf);
 			if (prop_is(ctx, "C17")) checkSegExpect(w, segx, where);
+		}
+		else if (op == "Restart" && !blindWant.empty()) {
+			// the save follows an unobserved deletion: no query before it
+			SaveSpec sp;
+			sp.raw = jstr(st, "save", "raw") == "raw";
+			SaveOut so = saveNif(*w.nif, sp);
+			ctx.hist.str(so.bytes);
+			if (so.rc != 0) ctx.viol("restart:save-failed", where + ": Save returned " + std::to_string(so.rc));
+			auto fresh = restartObject(w.nif, ctx);
+			LoadOut lo = loadNif(*fresh, so.bytes);
+			if (lo.rc != 0) ctx.viol("restart:reload-failed", where + ": the saved model does not load (rc=" + std::to_string(lo.rc) + ")");
+			w.nif = std::move(fresh);
+			ctx.fault("F-RESTART");
+			ctx.sig.tag("restart-unobserved");
+			auto rs = w.nif->GetShapes();
+			for (auto& kv : blindWant) {
+				if (kv.first >= rs.size()) { ctx.viol("restart:shape-count", where + ": shape " + std::to_string(kv.first) + " is missing after reload"); continue; }
+				ShapeSnap got = snapShape(*w.nif, rs[kv.first]);
+				ShapeSnap want = kv.second;
+				bool sseSkinned = want.skinned && w.nif->GetHeader().GetVersion().IsSSE();
+				if (prop_is(ctx, "C09")) {
+					got.boneWeights = want.boneWeights;
+					got.vertWeights = want.vertWeights;
+					cmpAttr(ctx, where + " (reloaded after an unobserved deletion)", got, want, sseSkinned);
+				}
+				if (!want.isStrips) {
+					std::multiset<TriKey> a, b;
+					for (auto& t : want.tris) b.insert(canonTri(t));
+					for (auto& t : got.tris) a.insert(canonTri(t));
+					if (a != b) ctx.viol("restart:triangles-not-a-permutation", where + " [" + want.name + "]: after an unobserved deletion, save and reload the shape has " + std::to_string(a.size()) + " triangles that are not the " + std::to_string(b.size()) + " surviving ones");
+				}
+			}
+			blindWant.clear();
+			for (size_t k = 0; k < rs.size(); k++) pf.coverInvalid[k] = true;
+			checkAll(w, where + " (reloaded)", false, &pf, true);
+			if (prop_is(ctx, "C17")) checkSegExpect(w, segx, where + " (reloaded)");
 		}
 		else if (op == "Restart") {
 			bool raw = jstr(st, "save", "raw") == "raw";
@@ -255,6 +298,20 @@ void profile_mesh(const json& plan, Ctx& ctx) {
 			// to the full invariants only if UpdateSkinPartitions ran after the last edit touching partitions
 			checkAll(w, where + " (reloaded)", true, &pf, true);
 			if (prop_is(ctx, "C17")) checkSegExpect(w, segx, where + " (reloaded)");
+			if (prop_is(ctx, "C17") && after.size() == before.size()) {
+				// "the stored triangles are a permutation of the previous ones ... after vertex deletion, save and reload"
+				for (size_t k = 0; k < before.size(); k++) {
+					if (before[k].isStrips || before[k].nv == 0) continue;
+					std::multiset<TriKey> a, b;
+					for (auto& t : before[k].tris) b.insert(canonTri(t));
+					for (auto& t : after[k].tris) a.insert(canonTri(t));
+					if (a != b) {
+						size_t lost = 0;
+						for (auto& e : b) if (a.count(e) < b.count(e)) lost++;
+						ctx.viol("restart:triangles-not-a-permutation", where + " [" + before[k].name + "]: " + std::to_string(lost) + " of " + std::to_string(b.size()) + " triangles are not read back after save + reload (" + std::to_string(a.size()) + " triangles reloaded)");
+					}
+				}
+			}
 			if (prop_is(ctx, "C17")) {
 				auto rs = w.nif->GetShapes();
 				for (auto& kv : partExpect) {
